@@ -73,7 +73,7 @@ esl_gam_logpdf(double x, double mu, double lambda, double tau)
   double gamtau;
   double val;
 
-  if (x < 0.) return -eslINFINITY;
+  if (y < 0.) return -eslINFINITY;
 
   esl_stats_LogGamma(tau, &gamtau);
   val = ((tau*log(lambda) + (tau-1.)*log(x-mu)) - gamtau) - y;
